@@ -564,7 +564,11 @@ class _parser:
             try:
                 tz = tz or get_timezone_from_tz_string(self.settings.TIMEZONE)
                 tz_offset = tz.utcoffset(dateobj)
-            except (pytz.UnknownTimeZoneError, pytz.NonExistentTimeError):
+            except (
+                pytz.UnknownTimeZoneError,
+                pytz.NonExistentTimeError,
+                pytz.AmbiguousTimeError,
+            ):
                 tz_offset = timedelta(hours=0)
 
             if "past" in self.settings.PREFER_DATES_FROM:
